@@ -18,6 +18,7 @@ import (
 func runC13More(c *core.Ctx) {
 	k := newG(c, "./lib/rac", "./lib/internal/racdict")
 	runC13Pad(k)
+	runC13GatherStale(k)
 	// ---- Z.strip ----
 	for _, fname := range []string{"writeDChunks"} {
 		fl := k.flow("Z.strip", "lib/rac", "Writer", fname)
